@@ -230,9 +230,13 @@ module Z :
  sig
   val compare : z -> z -> comparison
 
+  val leb : z -> z -> bool
+
   val eqb : z -> z -> bool
 
   val max : z -> z -> z
+
+  val of_N : n -> z
 
   val eq_dec : z -> z -> bool
  end
@@ -254,6 +258,8 @@ val dec_N : n -> text
 val dec_Z : z -> text
 
 val is_digit : n -> bool
+
+val text_eqb : text -> text -> bool
 
 val join : text -> text list -> text
 
@@ -1073,3 +1079,92 @@ val resolve_loop :
 val resolve :
   ('a1, 'a2) vSOps -> ('a2 -> 'a2 -> bool) -> nat -> pkg0 -> 'a2 -> ('a1,
   'a2) event list -> ('a1, 'a2) result
+
+type json =
+| JNull
+| JBool of bool
+| JNum of z
+| JStr of text
+| JArr of json list
+| JObj of (text * json) list
+
+val s_unbounded : text
+
+val s_included : text
+
+val s_excluded : text
+
+val map_opt : ('a1 -> 'a2 option) -> 'a1 list -> 'a2 list option
+
+val encode_bound : ('a1 -> json) -> 'a1 bound -> json
+
+val decode_bound : (json -> 'a1 option) -> json -> 'a1 bound option
+
+val decode_opt : (json -> 'a1 option) -> json -> 'a1 option option
+
+val decode_legacy :
+  (json -> 'a1 option) -> json -> json -> ('a1 bound * 'a1 bound) option
+
+val decode_interval :
+  (json -> 'a1 option) -> json -> ('a1 bound * 'a1 bound) option
+
+val encode_interval : ('a1 -> json) -> ('a1 bound * 'a1 bound) -> json
+
+val encode_range : ('a1 -> json) -> ('a1 bound * 'a1 bound) list -> json
+
+val decode_range :
+  (json -> 'a1 option) -> json -> ('a1 bound * 'a1 bound) list option
+
+val enc_num : z -> json
+
+val z_in_u32 : z -> bool
+
+val dec_u32 : json -> z option
+
+val enc_sv : semver -> json
+
+val dec_sv : json -> semver option
+
+val key_of_N : n -> text
+
+val n_of_key : text -> n option
+
+val key_of_Z : z -> text
+
+val z_of_key : text -> z option
+
+val encode_entries :
+  ('a1 -> text) -> ('a2 -> json) -> ('a1 * 'a2) list -> json
+
+val decode_entry :
+  (text -> 'a1 option) -> (json -> 'a2 option) -> (text * json) ->
+  ('a1 * 'a2) option
+
+val decode_entries :
+  (text -> 'a1 option) -> (json -> 'a2 option) -> json -> ('a1 * 'a2) list
+  option
+
+val encode_depmap : ('a1 -> json) -> 'a1 depmap -> json
+
+val decode_depmap : (json -> 'a1 option) -> json -> 'a1 depmap option
+
+val encode_inner : ('a1 -> json) -> (z * 'a1 depmap) list -> json
+
+val decode_inner :
+  (json -> 'a1 option) -> json -> (z * 'a1 depmap) list option
+
+val encode_provider : ('a1 -> json) -> 'a1 provider -> json
+
+val decode_provider : (json -> 'a1 option) -> json -> 'a1 provider option
+
+val encode_range_u32 : RZ.range -> json
+
+val decode_range_u32 : json -> RZ.range option
+
+val encode_range_sv : (semver bound * semver bound) list -> json
+
+val decode_range_sv : json -> (semver bound * semver bound) list option
+
+val encode_provider_u32 : RZ.range provider -> json
+
+val decode_provider_u32 : json -> RZ.range provider option
